@@ -62,6 +62,10 @@ class Message:
 
     def encode(self, delimiter=";"):
         """Encode a command string from message."""
+        payload = str(self.payload)
+        if delimiter in payload:
+            _LOGGER.error("Error encoding message to gateway, bad payload: %s", payload)
+            return None
         try:
             return (
                 delimiter.join(
